@@ -3,6 +3,7 @@ package main
 import (
 	"fmt"
 	"math"
+	"reflect"
 	"strconv"
 	"strings"
 )
@@ -389,6 +390,20 @@ func (g *exGen) Gen(kind string, d int) *Ex {
 			}
 			return &Ex{K: "name", Text: g.r.Pick([]string{"true", "false"})}
 		}
+		if g.r.Chance(4) {
+			// the nil tests: isNil / notNil compare with the nil interface, isNull / notNull also see nil pointers, maps,
+			// slices ... and fail on kinds that cannot be nil
+			var cands []string
+			for _, n := range []string{"np", "pt", "xs", "m", "emp", "nilv", "s", "i", "st", "p4"} {
+				if _, ok := g.env.Vals[n]; ok {
+					cands = append(cands, n)
+				}
+			}
+			if len(cands) > 0 {
+				fn := g.r.Pick([]string{"isNil", "notNil", "isNull", "notNull"})
+				return &Ex{K: "call", A: &Ex{K: "name", Text: fn}, Args: []*Ex{{K: "name", Text: g.r.Pick(cands)}}}
+			}
+		}
 		if g.r.Chance(6) {
 			// an integer beyond 2^53 against the float it rounds to (or a neighbour): the integer operand is converted
 			// to float64, so 9007199254740993 == 9007199254740992.0 holds
@@ -631,6 +646,38 @@ func RefEval(e *Ex, env *Env) (any, bool) {
 			args = append(args, v)
 		}
 		switch e.A.Text {
+		case "isNil", "notNil", "isNull", "notNull":
+			if len(args) != 1 {
+				return env.fail("err")
+			}
+			a := args[0]
+			if a == nil {
+				// the call goes through reflect: an untyped nil cannot be passed as an argument (zero Value), so these
+				// built-ins fail on a nil interface - observed behaviour of every function call, outside the properties
+				return env.fail("err")
+			}
+			res, bad := false, false
+			func() {
+				defer func() {
+					if recover() != nil {
+						bad = true
+					}
+				}()
+				switch e.A.Text {
+				case "isNil":
+					res = a == nil
+				case "notNil":
+					res = a != nil
+				case "isNull":
+					res = a == nil || reflect.ValueOf(a).IsNil()
+				default:
+					res = a != nil && !reflect.ValueOf(a).IsNil()
+				}
+			}()
+			if bad {
+				return env.fail("err")
+			}
+			return res, true
 		case "one":
 			return int64(1), true
 		case "ident":
